@@ -240,6 +240,87 @@ def _rebase(eng, rep, rule, fi, cfg, ci, a):
             rep.ok(rule, eng.where(fi, ci.node), "relative local `%s` is re-based (or dead) across the shift" % v)
 
 
+def rule_no_mutation_through_alias(eng, rep, rule="C16-5.stored-arrays-are-not-modified-through-a-local-alias"):
+    """T11 inside the Model class: once a field has been assigned a *view* of a local array (the local itself, a slice, `.T`, reshape, ...), an in-place
+    operation on that local (augmented assignment, element store, fill/sort, out=) that is reachable from the store silently rewrites the field -- e.g. the
+    fitted Jacobian `self.model_jac = dg[1:, :].T` followed by `dg /= ...` in a diagnostics block."""
+    VIEW_METHODS = ("reshape", "ravel", "view", "transpose", "squeeze", "swapaxes")
+
+    def view_root(e):
+        """name of the local that e is a view of, or None"""
+        if isinstance(e, ast.Name):
+            return e.id
+        if isinstance(e, ast.Subscript):
+            # fancy indexing with a list / array copies; basic slicing and integer indexing give views
+            idx = e.slice.elts if isinstance(e.slice, ast.Tuple) else [e.slice]
+            if any(isinstance(i, (ast.List, ast.ListComp, ast.Compare)) for i in idx):
+                return None
+            return view_root(e.value)
+        if isinstance(e, ast.Attribute) and e.attr == "T":
+            return view_root(e.value)
+        if isinstance(e, ast.Call) and isinstance(e.func, ast.Attribute) and e.func.attr in VIEW_METHODS:
+            return view_root(e.func.value)
+        if isinstance(e, ast.Call) and ekey(e.func) in ("np.asarray", "numpy.asarray", "np.atleast_2d", "np.transpose") and e.args:
+            return view_root(e.args[0])
+        return None
+
+    def root_name(t):
+        while isinstance(t, (ast.Subscript, ast.Attribute)):
+            if isinstance(t, ast.Attribute) and t.attr != "T":
+                return None
+            t = t.value
+        return t.id if isinstance(t, ast.Name) else None
+
+    model = eng.prog.cls("Model")
+    nstores = 0
+    for m in sorted(model.methods.values(), key=lambda f: f.qualname):
+        selfn = m.posparams[0] if m.posparams else None
+        cfg = eng.cfg(m)
+        stores = []       # (cfg node, field, local)
+        muts = {}         # local -> [(cfg node, stmt)]
+        for n, d in cfg.g.nodes(data=True):
+            st = d["ast"]
+            if d["kind"] != "stmt":
+                continue
+            if isinstance(st, ast.Assign):
+                for t in st.targets:
+                    if isinstance(t, ast.Attribute) and isinstance(t.value, ast.Name) and t.value.id == selfn:
+                        r = view_root(st.value)
+                        if r is not None and r != selfn and r not in m.all_params:
+                            stores.append((n, t.attr, r))
+                    elif isinstance(t, ast.Subscript):
+                        r = root_name(t)
+                        if r:
+                            muts.setdefault(r, []).append((n, st))
+            elif isinstance(st, ast.AugAssign):
+                r = root_name(st.target)
+                if r:
+                    muts.setdefault(r, []).append((n, st))
+            elif isinstance(st, ast.Expr) and isinstance(st.value, ast.Call) and isinstance(st.value.func, ast.Attribute) and st.value.func.attr in ("fill", "sort", "resize", "put", "itemset") \
+                    and isinstance(st.value.func.value, ast.Name):
+                muts.setdefault(st.value.func.value.id, []).append((n, st))
+            for sub in ast.walk(st) if isinstance(st, (ast.Assign, ast.Expr)) else []:
+                if isinstance(sub, ast.Call):
+                    for kw in sub.keywords:
+                        if kw.arg == "out" and isinstance(kw.value, ast.Name):
+                            muts.setdefault(kw.value.id, []).append((n, st))
+        for (sn, field, local) in stores:
+            nstores += 1
+            redefs = [k for k in cfg.g.nodes if k != sn and local in cfg.defs_of(k)[0] and not isinstance(cfg.ast_of(k), ast.AugAssign)]
+            hit = None
+            for (mn, mst) in muts.get(local, []):
+                if mn != sn and cfg.path_avoiding(sn, mn, redefs) is not None:
+                    hit = (mn, mst)
+                    break
+            site = eng.where(m, cfg.ast_of(sn))
+            if hit is None:
+                rep.ok(rule, site, "self.%s is a view of the local `%s`, which is not modified in place afterwards" % (field, local), nontrivial=bool(muts.get(local)))
+            else:
+                rep.bad(rule, eng.where(m, hit[1]), "%s|in-place-after-store|%s<-%s" % (m.fid, field, local),
+                        "`%s` modifies `%s` in place after `%s` made self.%s a view of it: the stored %s changes silently" % (short(hit[1], 50), local, short(cfg.ast_of(sn), 50), field, field))
+    rep.require_count(rule, "fields assigned views of locals in Model methods", nstores, 1)
+
+
 def run(eng, rep):
     rep.explain("C16 (structural clauses): the read-set of Model.interpolation_matrix is computed over the call graph; a typestate data-flow over every Model method "
                 "proves that each write to a member of it is followed by factorisation_current = False on every path to the exit, and that only "
@@ -250,3 +331,4 @@ def run(eng, rep):
     rule_invalidation(eng, rep)
     rule_ownership(eng, rep)
     rule_shift_affine(eng, rep)
+    rule_no_mutation_through_alias(eng, rep)
